@@ -625,6 +625,16 @@ func exec(c vh.Case, o *vh.Out) {
 				delete(tr.concLoser, k)
 				o.Nontrivial()
 			}
+			// ListPublished reports the publisher's own latest record of every name
+			if haveNew {
+				lp, lerr := namesys.NewIPNSPublisher(store, dstore).ListPublished(ctx)
+				got, ok := lp[names[k]]
+				if lerr != nil || !ok {
+					o.Fail("list-published-mismatch", "ListPublished misses key %d (%v)", k, lerr)
+				} else if gs, _ := got.Sequence(); gs != newSeq {
+					o.Fail("list-published-mismatch", "ListPublished has sequence %d for key %d, datastore %d", gs, k, newSeq)
+				}
+			}
 			o.Emit("%s %s", res, seqs(k))
 		case "cpublish":
 			// two publishes for one key in flight at once; see rvDS. mode seq: A is started first and B's
@@ -833,6 +843,30 @@ func exec(c vh.Case, o *vh.Out) {
 				if (err2 == nil) != (err == nil) || (err2 == nil && (r2.Path.String() != res.Path.String() || r2.TTL != res.TTL)) {
 					o.Fail("resolve-vs-async", "Resolve and drained ResolveAsync differ: %v/%v", err, err2)
 				}
+				if f[2] == "-" { // the package-level helper (default options)
+					r3, err3 := namesys.Resolve(ctx, ns, p)
+					if (err3 == nil) != (err == nil) || (err3 == nil && r3.Path.String() != res.Path.String()) {
+						o.Fail("resolve-vs-async", "namesys.Resolve differs: %v/%v", err, err3)
+					}
+				}
+				// a chain of IPNS names only resolves identically through the stand-alone IPNS resolver
+				// (same recursion helper, no cache, no TTL cap)
+				if tr.cap == 0 && f[1][0] == 'N' && tr.namesOnly(f[1], depth, store) {
+					ir := namesys.NewIPNSResolver(store)
+					r4, err4 := ir.Resolve(ctx, p, opts...)
+					if (err4 == nil) != (err == nil) || (err4 == nil && (r4.Path.String() != res.Path.String() || r4.TTL != res.TTL)) ||
+						(err4 != nil && errors.Is(err4, namesys.ErrResolveRecursion) != errors.Is(err, namesys.ErrResolveRecursion)) {
+						o.Fail("resolver-entry-points-differ", "IPNSResolver.Resolve %v/%v vs namesys %v/%v", r4.Path, err4, res.Path, err)
+					}
+					var last namesys.AsyncResult
+					for r := range ir.ResolveAsync(ctx, p, opts...) {
+						last = r
+					}
+					if (last.Err == nil) != (err == nil) {
+						o.Fail("resolver-entry-points-differ", "IPNSResolver.ResolveAsync %v vs %v", last.Err, err)
+					}
+					o.Kind("ipns-resolver-compared")
+				}
 			}
 			var out string
 			switch {
@@ -966,6 +1000,39 @@ func (tr *truth) walk(tok string, depth uint, store *memStore) string {
 			return ""
 		}
 	}
+}
+
+// namesOnly reports whether resolving tok touches only IPNS names that have a record (and ends in an
+// immutable path or at the depth limit): then the stand-alone IPNS resolver must agree with namesys.
+func (tr *truth) namesOnly(tok string, depth uint, store *memStore) bool {
+	cur := tok
+	for hops := uint(0); hops < 70; hops++ {
+		root := strings.Split(strings.TrimSuffix(cur, "/"), "/")[0]
+		if root[0] == 'C' {
+			return true
+		}
+		if root[0] != 'N' {
+			return false
+		}
+		if depth != 0 && hops == depth {
+			return true
+		}
+		k := vh.Atoi(strings.Split(root[1:], ".")[0])
+		raw, ok := store.m[string(names[k].RoutingKey())]
+		if !ok {
+			return false
+		}
+		rec, err := ipns.UnmarshalRecord(raw)
+		if err != nil {
+			return false
+		}
+		v, err := rec.Value()
+		if err != nil {
+			return false
+		}
+		cur = tokPath(v)
+	}
+	return false
 }
 
 func main() { vh.Main(vh.Config{Gen: gen, Exec: exec, CaseTimeout: 10 * time.Second}) }
